@@ -163,11 +163,13 @@ where
         }
     }
     fn on_exit(&self, id: &Id, ctx: Context<'_, C>) {
-        if ctx.span(id).is_none() {
+        // (one lookup: with the registry's exit running before the layers' on_exit - F28 - the span
+        // may be closed by another thread at any moment of this callback)
+        let Some(sref) = ctx.span(id) else {
             self.log.err(Tag::C05, format!("EXIT-AFTER-CLOSE layer {}: on_exit({:#x}) arrives after the span was closed and removed (ctx.span finds nothing)", self.layer, id.into_u64()));
             return;
-        }
-        if let Some(serial) = self.serial_of("on_exit", ctx.span(id), id) {
+        };
+        if let Some(serial) = self.serial_of("on_exit", Some(sref), id) {
             self.log.entries.lock().unwrap().push(LEv::Exit { layer: self.layer, serial });
         }
     }
